@@ -134,7 +134,7 @@ def extend (ext : Ext) (root : B) : SVal → R B
   | .some v => extend ext root v
   | .newtypeStruct _ v => extend ext root v
   | .seq xs | .tuple xs | .tupleStruct _ xs => pushAll root xs
-  | .none | .unit => pushNone root
+  | .none | .unit | .unitStruct _ => pushNone root
   | x => ctx root.ann (notSupported s!"serialize_{x.kind}")
 where pushAll (root : B) : SVals → R B
   | .nil => .ok root
